@@ -1,7 +1,11 @@
 """C19 — the immutable sandbox never modifies list, dict, set or deque data.
 
 proof : Properties/C19.v (checker soundness for every table; snapshot instance; private names)
-        + regenerated every run: build/C19/SbxGenC19.v  (T1: ordered _mutable_spec, UNSAFE_*,
+        + regenerated every run: build/C19/Gen_sbx_src.v (T5: gen/sbx_translate.py turns the
+        current source of modifies_known_mutable / is_internal_attribute / both is_safe_attribute
+        methods into terms of Lib/PySbx.v and the file proves  source term = model function  for
+        every argument, the loop over _mutable_spec by induction over the table),
+        build/C19/SbxGenC19.v  (T1: ordered _mutable_spec, UNSAFE_*,
         isinstance facts, public names of the running interpreter  =>  theorem
         immutable_blocks_mutators by vm_compute) and SbxGenC19Filters.v (T3-lite write footprint
         of filters.py  =>  filters_do_not_mutate_args)
@@ -20,14 +24,16 @@ import inspect
 import itertools
 
 from . import lib
+from . import sbx_src_tie
 
 RULE = ("methods: every public name of list/dict/set/deque of the running interpreter (plus dunder mutators) x "
         "argument tuples that the method accepts on a fresh container x 17 access paths (dot, subscript, set/with "
         "alias, attr filter, map(attribute=), map('attr'), nested container, macro argument, loop variable, dict "
-        "value, call block, str.format / format_map field lookups) x {sync, async} immutable sandbox; distinct = "
-        "(type, name, args, path, mode); non-trivial = the method mutates per Spec/SbxMutators. filters: every "
+        "value, call block, str.format / format_map field lookups) x {sync, async} immutable sandbox, each interleaved with a plain "
+        "SandboxedEnvironment of the same process rendering the same template first (plain-first) or between two "
+        "immutable renders (immutable-first); distinct = (type, name, args, path, mode); non-trivial = the method mutates per Spec/SbxMutators. filters: every "
         "registered filter x container values x every parameter bound to a container (keyword and positional) "
-        "x {printed, consumed with |list} x {sync, async}; non-trivial = the filter call returned without error.")
+        "x {printed, consumed with |list} x {sync, async} x autoescape {off, on}; non-trivial = the filter call returned without error.")
 
 PY_OF = {"TList": list, "TDict": dict, "TSet": set, "TDeque": collections.deque}
 LETTER = {"TList": "L", "TDict": "D", "TSet": "S", "TDeque": "Q"}
@@ -109,16 +115,6 @@ def regenerate(ctx):
     if facts is not None:
         if not facts["live_table_matches_source"]:
             ctx.broken.append("T1: the _mutable_spec / UNSAFE_* objects of the imported module differ from the source text")
-        bad = [q for q in sbx_tables.shape_mismatches(facts)
-               if q in ("modifies_known_mutable", "ImmutableSandboxedEnvironment.is_safe_attribute",
-                        "SandboxedEnvironment.is_safe_attribute", "is_internal_attribute")]
-        ctx.obligations += 1
-        ctx.obligation_names.append("shape of modifies_known_mutable / is_safe_attribute / is_internal_attribute")
-        if bad:
-            ctx.broken.append("T1: source shape differs from the modelled one: " + ", ".join(bad))
-            ctx.extra["shape_changed"] = {q: facts["shapes"][q] for q in bad}
-        else:
-            ctx.discharged += 1
         v = f"""(* regenerated from {lib.SRC}/jinja2/sandbox.py and the running interpreter by gen/sbx_tables.py *)
 From Coq Require Import List Bool String.
 Import ListNotations.
@@ -270,9 +266,16 @@ def method_data(T, variant, args):
 
 
 def make_envs():
-    from jinja2.sandbox import ImmutableSandboxedEnvironment
-    return {"sync": ImmutableSandboxedEnvironment(), "async": ImmutableSandboxedEnvironment(enable_async=True),
-            "cache": {"sync": {}, "async": {}}}
+    """immutable sandboxes (sync / async, autoescape off / on) and, in the SAME process, plain sandboxes that
+    are used in between: what the immutable sandbox decides must not depend on what another environment looked
+    up before (no verdict shared across environment classes)"""
+    from jinja2.sandbox import ImmutableSandboxedEnvironment, SandboxedEnvironment
+    envs = {"sync": ImmutableSandboxedEnvironment(), "async": ImmutableSandboxedEnvironment(enable_async=True),
+            "sync-ae": ImmutableSandboxedEnvironment(autoescape=True),
+            "async-ae": ImmutableSandboxedEnvironment(autoescape=True, enable_async=True),
+            "plain-sync": SandboxedEnvironment(), "plain-async": SandboxedEnvironment(enable_async=True)}
+    envs["cache"] = {k: {} for k in envs}
+    return envs
 
 
 def judge_method_case(ctx, envs, case, model_safe, exists=True):
@@ -281,20 +284,28 @@ def judge_method_case(ctx, envs, case, model_safe, exists=True):
     tmpl = {**PATHS, **FORMAT_PATHS}[path]
     src = tmpl % {"m": m, "a": ", ".join(f"a{i}" for i in range(len(args)))}
     case["template"] = src
-    data = method_data(T, variant, args)
-    before = canon(data)
-    outcome = render_case(envs, mode, src, data)
-    case["outcome"] = outcome
-    if canon(data) != before:
-        reject_once(ctx, case, f"{NAME[T]}.{m} reached through '{path}' in the {mode} immutable sandbox modified the "
-                         f"context data ({outcome})", f"C19:method:{NAME[T]}.{m}")
-        return False
-    if path in FORMAT_PATHS or model_safe is None:
-        return True
-    # model: blocked <=> the access yields the SecurityError-raising undefined, whose call raises
-    if (not model_safe) != (outcome == "SecurityError") and exists:
-        ctx.model_mismatch("K-render immutable_handout", case, "safe" if model_safe else "blocked", outcome, None)
-        return False
+    # history: the same template is also rendered by a plain (mutable) sandbox of this process, before
+    # ("plain-first") or between two immutable renders ("immutable-first"); every immutable render is judged
+    order = case.get("order", "immutable-only")
+    steps = {"plain-first": ["plain", "imm"], "immutable-first": ["imm", "plain", "imm"], "immutable-only": ["imm"]}[order]
+    outcome = None
+    for stepno, step in enumerate(steps):
+        data = method_data(T, variant, args)
+        if step == "plain":
+            render_case(envs, "plain-" + mode, src, data)       # mutation is allowed here
+            continue
+        before = canon(data)
+        outcome = render_case(envs, mode, src, data)
+        case["outcome"] = outcome
+        if canon(data) != before:
+            case["step"] = stepno
+            reject_once(ctx, case, f"{NAME[T]}.{m} reached through '{path}' in the {mode} immutable sandbox modified the "
+                             f"context data ({outcome}; history {order}, step {stepno})", f"C19:method:{NAME[T]}.{m}")
+            return False
+        if not (path in FORMAT_PATHS or model_safe is None) and (not model_safe) != (outcome == "SecurityError") and exists:
+            case["step"] = stepno
+            ctx.model_mismatch("K-render immutable_handout", case, "safe" if model_safe else "blocked", outcome, None)
+            return False
     return True
 
 
@@ -376,6 +387,9 @@ def run(ctx):
         "filters_do_not_mutate_args is as strong as the alias analysis of gen/sbx_filters_scan.py (values passed through calls are treated as fresh); the deep-compare run is the behavioural check",
     ]
     ctx.proof("C19")
+    # T5: the current source of modifies_known_mutable, is_internal_attribute and both
+    # is_safe_attribute methods, interpreted in Coq, equals the model functions for every argument
+    sbx_src_tie.source_equations(ctx, ("mkm", "internal", "safe", "imm", "access"))
     facts, flagged = regenerate(ctx)
     from jinja2 import sandbox as sb
     envs = make_envs()
@@ -437,14 +451,16 @@ def run(ctx):
             if m in DUNDER_MUTATORS:
                 trials = [(8, 0), (3, 0)]
             bits = model.get((T, m))
-            for (ai, variant), path, mode in itertools.product(trials, list(PATHS) + list(FORMAT_PATHS), ("sync", "async")):
-                case = {"kind": "method", "T": T, "m": m, "args": ai, "variant": variant, "path": path, "mode": mode}
+            for idx, ((ai, variant), path, mode) in enumerate(itertools.product(trials, list(PATHS) + list(FORMAT_PATHS), ("sync", "async"))):
+                case = {"kind": "method", "T": T, "m": m, "args": ai, "variant": variant, "path": path, "mode": mode,
+                        "order": "plain-first" if idx % 2 == 0 else "immutable-first"}
                 nontriv = bool(bits and bits["spec"]) or (T, m) in observed and observed[(T, m)][0]
                 ok = judge_method_case(ctx, envs, case, bits["safe"] if bits else None,
                                        exists=hasattr(PY_OF[T], m) and callable(getattr(PY_OF[T], m, None)))
                 ctx.case(sample=case if nontriv and path == "map-attribute" else None,
                          key=("m", T, m, ai, variant, path, mode) if nontriv else None)
                 ctx.count("render_" + ("format" if path in FORMAT_PATHS else "call") + "_" + mode)
+                ctx.count("history_" + case["order"])
                 if ok:
                     ctx.validated()
 
@@ -457,7 +473,9 @@ def run(ctx):
             seen.add(expr)
             exprs.append((name, expr))
     for name, expr in exprs:
-        for form, mode in itertools.product(("print", "list"), ("sync", "async")):
+        for form, mode in itertools.product(("print", "list"), ("sync", "async", "sync-ae", "async-ae")):
+            if mode.endswith("-ae") and form == "list" and ctx.tier != "thorough":
+                continue
             case = {"kind": "filter", "filter": name, "expr": expr, "form": form, "mode": mode}
             ok = judge_filter_case(ctx, envs, case)
             good = case["outcome"] == "ok"
@@ -478,7 +496,7 @@ def replay(ctx, data):
         return run(ctx)
     envs = make_envs()
     if case.get("kind") == "method":
-        judge_method_case(ctx, envs, dict(case), None)
+        judge_method_case(ctx, envs, {k: v for k, v in case.items() if k not in ("outcome", "template", "step")}, None)
     elif case.get("kind") == "filter":
         judge_filter_case(ctx, envs, dict(case))
     elif case.get("kind") == "policy":
